@@ -88,6 +88,16 @@ func Execute(t *testing.T, sc *Scenario, plan *Plan, ch *Chooser, maxSteps int, 
 	if w := max(plan.Par, twinPar(plan)); w > 64 {
 		maxSteps *= 1 + w/64
 	}
+	if n := len(plan.Inputs); n > 4 {
+		maxSteps *= 1 + n/4 // many producers and copiers contending for one lock or channel
+	}
+	elems := 0
+	for _, in := range plan.Inputs {
+		elems += len(in)
+	}
+	if elems > 500 {
+		maxSteps *= 1 + elems/500 // thousands of elements, each worth dozens of steps
+	}
 	if x := plan.X("step_cap_x"); x > 1 {
 		maxSteps *= x // plans that are long by design (a backlog of tens of thousands of values)
 	}
